@@ -15,6 +15,15 @@ CLAIMED = {
             'Every encoded message is checked byte-wise by an independent tokeniser/validator: framing fields, BodyLength, CheckSum, token syntax, '
             'section order, schema position order under random insertion orders, group structure.',
             'Same generator as C01; the validator knows the schema only through the dumped trait tables.', '4/C02'),
+    'C03': ('E2', 'exploration', 'coverage-guided fuzzing (libFuzzer, ASan+UBSan) of Message::factory + structure-aware adversarial generators (Hypothesis) for decode and encode',
+            'Totality and memory safety of the codec are searched with a libFuzzer campaign on factory() (seeded with every message type, tag dictionary), '
+            'a structure-aware generator for the classes a byte fuzzer reaches slowly (huge tags/values/counts, lying Length fields, truncations) and '
+            'large-message encoder inputs right up to the buffer limit. Sanitizer reports, traps, foreign exceptions and hangs fail.',
+            'Open known finding: encode into the fixed 8192 byte area overflows for BodyLength > 8184 (excluded by construction and counted).', '4/C03'),
+    'C07': ('E2', 'exploration', 'coverage-guided fuzzing (libFuzzer, ASan+UBSan) with the byte-sum oracle inside the target',
+            'calc_chksum over exactly sized heap blocks at generated misalignments, offsets and lengths (incl. len=-1) compared with a byte-wise sum; '
+            'ASan flags any read outside the block.',
+            'Only the 64-bit code path is compiled on this platform.', '4/C07'),
     'C04': ('E1', 'exploration', 'property-based testing (Hypothesis): conforming messages + single generated deviations vs a reference strict validator',
             'Reference-encoded conforming messages must be accepted with every field retained (typed comparison); each generated deviation class '
             '(checksum, unknown tag at any boundary, tag >= 65536 aliasing, misplaced header/body field, duplicate, missing mandatory, bad group start) must throw.',
